@@ -635,10 +635,8 @@ func stackJSON(r *core.Run) {
 			switch op.kind {
 			case "push":
 				npush++
-				var vals []ssa.Value
-				if args, ok := argsOfParam(r, op.val); ok {
-					vals = args
-				} else {
+				vals, okL := leafValues(r, op.val, 0)
+				if !okL {
 					vals = []ssa.Value{op.val}
 				}
 				good := len(vals) > 0
